@@ -18,10 +18,17 @@ fn other_preimages<S: Suite>(t: &S::K) -> Vec<S::K> {
     let s = z.mul(&t.sq());
     let s2 = S::K::one().neg().sub(&s);
     let t2 = s2.mul(&z.inv().unwrap());
-    match S::sqrt(&t2) {
+    let mut out = match S::sqrt(&t2) {
         Some(r) if !r.is_zero() => vec![r.clone(), r.neg()],
         _ => vec![],
+    };
+    // second family: s' = 1/s exchanges the two candidates (x1(s) = x2(1/s)), i.e. t' = +-1/(Z t); the two SSWU
+    // outputs then denote the same x through DIFFERENT Jacobian representatives
+    if let Some(i) = z.mul(t).inv() {
+        out.push(i.clone());
+        out.push(i.neg());
     }
+    out
 }
 
 fn map_checks<S: Suite>(ctx: &Ctx, ta: &TAlpha<S>) {
@@ -198,6 +205,6 @@ pub fn run(ctx: &Ctx) -> (&'static str, &'static str) {
     ctx.assume("isogeny coefficients are read from the library tables (C16 establishes that they define a homomorphism onto the target curve; RFC vectors in C06 pin the normalisation)");
     (
         "exploration",
-        "u alphabet = the C15 class-complete SSWU alphabet (zero, exceptional roots, every case-split class, seeded); singles: all of it; pairs: all ordered pairs of a 12-24 element spread, zero/exceptional members with generic ones, the diagonal (u,u) and anti-diagonal (u,-u) for 40-160 u, and constructed pairs of DISTINCT inputs with coinciding or opposite SSWU images obtained by inverting the SWU x-formula in the reference model (t'^2 = (-1 - Z t^2)/Z); a class with fewer than 2 members is a machinery failure; non-trivial = any pair class",
+        "u alphabet = the C15 class-complete SSWU alphabet (zero, exceptional roots, every case-split class, seeded); singles: all of it; pairs: all ordered pairs of a 12-24 element spread, zero/exceptional members with generic ones, the diagonal (u,u) and anti-diagonal (u,-u) for 40-160 u, and constructed pairs of DISTINCT inputs with coinciding or opposite SSWU images obtained by inverting the SWU x-formula in the reference model (both families: Z t'^2 = -1 - Z t^2, where the two outputs are the same Jacobian triple, and t' = +-1/(Z t), where x1 and x2 swap and the representatives differ); a class with fewer than 2 members is a machinery failure; non-trivial = any pair class",
     )
 }
